@@ -637,16 +637,20 @@ static std::vector<size_t> randomTag(Rng & rng, size_t n, size_t maxLen) {
 static AI::Factored::MDP::CooperativeModel makeRandomCoop(Rng & rng) {
     namespace F = AI::Factored;
     const size_t nS = (size_t)rng.range(2, 4), nA = (size_t)rng.range(1, 3);
-    F::State S(nS); F::Action A(nA);
+    F::State S(nS); F::Action A(nA);   // sizes differ between factors (2..4 / 2..3)
     for (auto & x : S) x = (size_t)rng.range(2, 4);
     for (auto & x : A) x = (size_t)rng.range(2, 3);
     F::DDNGraph graph(S, A);
     F::DDN::TransitionMatrix T;
     for (size_t i = 0; i < nS; ++i) {
-        F::DDNGraph::ParentSet ps; ps.agents = randomTag(rng, nA, 2);
-        const size_t na = F::factorSpacePartial(ps.agents, A);
-        size_t rows = 0;
-        for (size_t k = 0; k < na; ++k) { ps.features.push_back(randomTag(rng, nS, 2)); rows += F::factorSpacePartial(ps.features.back(), S); }
+        // tags of up to THREE keys over non-uniform sizes: with two keys the second multiplier is just the first key's size,
+        // so a wrong multiplier chain in toIndexPartial / factorSpacePartial only shows from the third key on (mutation R4j)
+        F::DDNGraph::ParentSet ps; size_t rows;
+        do {
+            ps.agents = randomTag(rng, nA, rng.coin(1, 3) ? 3 : 2); ps.features.clear(); rows = 0;
+            const size_t na = F::factorSpacePartial(ps.agents, A);
+            for (size_t k = 0; k < na; ++k) { ps.features.push_back(randomTag(rng, nS, rng.coin(1, 3) ? 3 : 2)); rows += F::factorSpacePartial(ps.features.back(), S); }
+        } while (rows > 160);
         graph.push(ps);
         AI::Matrix2D m(rows, S[i]);
         for (size_t r = 0; r < rows; ++r) { int shape; auto p = genProb(rng, S[i], shape); for (size_t c = 0; c < S[i]; ++c) m(r, c) = p[c]; }
@@ -655,7 +659,7 @@ static AI::Factored::MDP::CooperativeModel makeRandomCoop(Rng & rng) {
     F::FactoredMatrix2D R;
     const size_t nb = (size_t)rng.range(1, 3);
     for (size_t b = 0; b < nb; ++b) {
-        F::BasisMatrix bm; bm.tag = randomTag(rng, nS, 2); bm.actionTag = randomTag(rng, nA, 2);
+        F::BasisMatrix bm; bm.tag = randomTag(rng, nS, 3); bm.actionTag = randomTag(rng, nA, 3);
         bm.values.resize(F::factorSpacePartial(bm.tag, S), F::factorSpacePartial(bm.actionTag, A));
         for (long r = 0; r < bm.values.rows(); ++r) for (long c = 0; c < bm.values.cols(); ++c) bm.values(r, c) = (double)rng.range(-8, 8) / 4.0;
         R.bases.push_back(std::move(bm));
@@ -809,7 +813,7 @@ static void emit_fband(Rng & rng, int nsamples) {
     AI::Seeder::setRootSeed(root);
     for (size_t g = 0; g < G; ++g) {
         // non-prefix keys: a random non-empty subset of the agents, ascending
-        do { groups[g].clear(); for (size_t i = 0; i < nAgents; ++i) if (rng.coin()) groups[g].push_back(i); } while (groups[g].empty() || groups[g].size() > 2);
+        do { groups[g].clear(); for (size_t i = 0; i < nAgents; ++i) if (rng.coin()) groups[g].push_back(i); } while (groups[g].empty() || groups[g].size() > 3);
         const size_t n = AI::Factored::factorSpacePartial(groups[g], A);
         std::vector<std::tuple<double, double>> args;
         for (size_t k = 0; k < n; ++k) { double lo = (double)rng.range(-8, 8) / 4.0, w = std::ldexp(1.0, (int)rng.range(-1, 2)); args.emplace_back(lo, lo + w); armTab[g].push_back({lo, lo + w}); }
